@@ -32,7 +32,7 @@ enum Sp {
 
 #[allow(clippy::too_many_arguments)]
 fn call(tr: &mut Tr, case: &str, grid: &str, guess: &str, eos: &Arc<M>, sp: Sp, x: &Array1<f64>, x2: Option<&Array1<f64>>, bubble: bool,
-        opts: (SolverOptions, SolverOptions), uniq: bool) -> Option<PhaseEquilibrium<M, 2>> {
+        opts: (SolverOptions, SolverOptions), (uniq, dom): (bool, bool)) -> Option<PhaseEquilibrium<M, 2>> {
     feos_core::verif::take();
     feos_core::verif::enable(true);
     let r = guarded(std::panic::AssertUnwindSafe(|| match (sp, bubble) {
@@ -47,7 +47,7 @@ fn call(tr: &mut Tr, case: &str, grid: &str, guess: &str, eos: &Arc<M>, sp: Sp, 
     for l in lines.iter().filter(|l| l.contains("\"ev\":\"BD")) { tr.raw(l); }
     let st = status(&r);
     let (spec, val) = match sp { Sp::T(t, _) => ("T", t), Sp::P(p, _) => ("p", p) };
-    let mut ev = json!({"ev":"BDCall","case":case,"grid":grid,"guess":guess,"status":st,"spec":spec,"bubble":bubble,"val":fs(val),"x":fv(x.iter()),"uniq":uniq});
+    let mut ev = json!({"ev":"BDCall","case":case,"grid":grid,"guess":guess,"status":st,"spec":spec,"bubble":bubble,"val":fs(val),"x":fv(x.iter()),"uniq":uniq,"dom":dom});
     if let Ok(Ok(v)) = &r {
         let (s1, s2) = if bubble { (v.liquid(), v.vapor()) } else { (v.vapor(), v.liquid()) };
         ev["x1"] = fv(s1.molefracs.iter());
@@ -93,8 +93,8 @@ pub fn run(args: &Args) {
             let tfs = if args.thorough { vec![0.6, 0.7, 0.8, 0.9, 0.97, 1.05] } else { vec![0.7, 0.9, 1.05] };
             for tf in tfs {
                 let t = tc_lo * tf;
-                // C12 is judged where the bubble / dew point is unique: below the lower critical temperature, systems without liquid-liquid demixing
-                let uq = tf < 1.0 && !name.contains("decane");
+                // the numeric laws are judged inside the quantifier of C05 / C12 (critical temperatures differ by less than a factor 1.8); C12 is judged where the bubble / dew point is unique: below the lower critical temperature, systems without liquid-liquid demixing
+                let uq = (tf < 1.0 && !name.contains("decane"), tc_hi / tc_lo < 1.8);
                 for bubble in [true, false] {
                     let grid = format!("z={:?},T/Tc_lo={},{}", z, tf, if bubble { "bubble" } else { "dew" });
                     // no initial value: ideal-gas estimate, spinodal estimate
